@@ -1615,8 +1615,12 @@ var _ rpc.Resources
 //@   assert[C06] s.handleReaccess#1: s.queueFlag == 0 && callcount("processEvent") == old(callcount("processEvent"))
 //@   assert[C19] s.handleReaccess#1: arg0 == old(s.reaccessThrottle) && s.reaccessThrottle == nil
 //@   assert[C03,C06] s.processEvent#1: s.queueFlag == 0
+// (the held events are detached from the subscription before the first of them is processed:
+// processing one may release the queue again, and must not find them a second time)
+//@   assert[C03] s.processEvent#1: rangeidx1 == 0 ==> s.eventQueue == nil
 //@   safety[C15]
 //@   loop 1 invariant s.queueFlag == 0
+//@   loop 1 invariant rangeidx1 == 0 ==> s.eventQueue == nil
 //@   loop 1 assume forall k int :: 0 <= k && k < len(eq) ==> eq[k] != nil
 
 // Event (run by the connection worker): reaccess is handled even before the resource is loaded;
